@@ -137,6 +137,20 @@ let run (line : string) : unit =
                  | Some m when legal p m -> go (apply p m) (i + 1) rest
                  | _ -> Printf.printf "specply %d illegal=%s\n" (i + 1) t) in
           go p 0 toks)
+  | "speclast" ->
+      (* speclast m1 m2 ... | fen : play the line by the rules and print only the last position's line *)
+      let (mvs, fen) = split_bar rest in
+      with_pos cmd fen (fun p ->
+          let toks = List.filter (fun x -> x <> "") (String.split_on_char ' ' mvs) in
+          let rec go p i = function
+            | [] ->
+                Printf.printf "specply %d sane=%d render=%s legal=%s\n" i (b01 (sane p))
+                  (us (string_of_text (render p))) (texts (legal_moves p))
+            | t :: rest ->
+                (match parse_move (scalars_of_string t) with
+                 | Some m when legal p m -> go (apply p m) (i + 1) rest
+                 | _ -> Printf.printf "specply %d illegal=%s\n" (i + 1) t) in
+          go p 0 toks)
   | "specmirror" ->
       with_pos cmd rest (fun p ->
           let mb = mirror_board p.p_board in
